@@ -37,7 +37,9 @@ pub enum SOp {
     Restart { node: u8, hex: bool },
     /// node hands its copy the witness set / body / auxiliary data it already holds again, through the raw
     /// setters (what a signing device does that keeps the three parts separately): 0 = witness set, 1 = body,
-    /// 2 = auxiliary data
+    /// 2 = auxiliary data, 3 = the auxiliary data in another producer's encoding (same content, other
+    /// bytes: from then on *those* are the node's auxiliary bytes), 4 = a body the setter must refuse
+    /// (the whole transaction handed over by mistake, F4: nothing may change)
     SetPartAgain { node: u8, part: u8 },
     /// collector `to` takes every key/bootstrap witness of `from` one by one
     Merge { from: u8, to: u8 },
@@ -177,7 +179,7 @@ fn gen(seed: u64, tier: Tier) -> Case {
                 if r.chance(1, 2) {
                     SOp::Restart { node, hex: r.chance(1, 2) }
                 } else {
-                    SOp::SetPartAgain { node, part: r.below(3) as u8 }
+                    SOp::SetPartAgain { node, part: r.below(5) as u8 }
                 }
             }
             _ => SOp::Merge { from: r.below(NODES as u64) as u8, to: node },
@@ -303,6 +305,8 @@ struct NodeState {
     /// witnesses this node's copy is expected to hold beyond the original ones
     added_vkeys: BTreeSet<(Vec<u8>, Vec<u8>)>,
     added_boots: BTreeSet<Vec<u8>>,
+    /// auxiliary bytes the node itself put in place of the original ones (set_auxiliary_data)
+    aux_override: Option<Vec<u8>>,
 }
 
 fn plain(b: &[u8]) -> Vec<u8> {
@@ -324,7 +328,8 @@ fn check_node(step: usize, id: u8, ns: &NodeState, f: &Facts, out: &mut Outcome)
     if ns.tx.transaction_hash().to_bytes() != f.hash.to_vec() {
         out.violate("C04.tx_hash", "hash_is_not_blake2b_of_original_body", format!("step {} node {}: transaction_hash() != blake2b256(original body bytes)", step, id));
     }
-    if ns.tx.raw_auxiliary_data() != f.aux {
+    let aux_expected: Option<Vec<u8>> = ns.aux_override.clone().or_else(|| f.aux.clone());
+    if ns.tx.raw_auxiliary_data() != aux_expected {
         if std::env::var("C04_DEBUG").is_ok() {
             eprintln!("original aux: {}\nreturned aux: {}", f.aux.as_ref().map(hex::encode).unwrap_or_default(), ns.tx.raw_auxiliary_data().map(hex::encode).unwrap_or_default());
         }
@@ -347,7 +352,7 @@ fn check_node(step: usize, id: u8, ns: &NodeState, f: &Facts, out: &mut Outcome)
     if v.span(v.body()) != &f.body[..] {
         out.violate("C04.body_bytes", "serialized_body_differs_from_original", format!("step {} node {}: body bytes in to_bytes() differ from the original", step, id));
     }
-    match (&f.aux, v.aux().is_null()) {
+    match (&aux_expected, v.aux().is_null()) {
         (None, true) => {}
         (Some(a), false) if v.span(v.aux()) == &a[..] => {}
         _ => out.violate("C04.aux_bytes", "serialized_aux_differs_from_original", format!("step {} node {}: auxiliary data bytes in to_bytes() differ from the original", step, id)),
@@ -549,7 +554,7 @@ fn execute(c: &Case) -> Outcome {
                     if nodes[*node as usize].is_some() {
                         out.count("fault.F6_duplicate_delivery_of_original", 1);
                     }
-                    nodes[*node as usize] = Some(NodeState { tx, base: f.clone(), added_vkeys: BTreeSet::new(), added_boots: BTreeSet::new() });
+                    nodes[*node as usize] = Some(NodeState { tx, base: f.clone(), added_vkeys: BTreeSet::new(), added_boots: BTreeSet::new(), aux_override: None });
                     out.nontrivial = true;
                 }
                 Err(exec::Res::Panic(p)) => {
@@ -568,7 +573,7 @@ fn execute(c: &Case) -> Outcome {
                     match r {
                         Ok(tx) => {
                             out.count("c04.loaded_from_parts", 1);
-                            nodes[*node as usize] = Some(NodeState { tx, base: f.clone(), added_vkeys: BTreeSet::new(), added_boots: BTreeSet::new() });
+                            nodes[*node as usize] = Some(NodeState { tx, base: f.clone(), added_vkeys: BTreeSet::new(), added_boots: BTreeSet::new(), aux_override: None });
                             out.nontrivial = true;
                         }
                         Err(exec::Res::Panic(_)) => out.count("panics_observed", 1),
@@ -600,7 +605,10 @@ fn execute(c: &Case) -> Outcome {
                         }
                     }
                     match (load(&msg, *hex), facts(&msg)) {
-                        (Ok(tx), Some(base)) => nodes[*to as usize] = Some(NodeState { tx, base, added_vkeys: BTreeSet::new(), added_boots: BTreeSet::new() }),
+                        (Ok(tx), Some(base)) => {
+                            let aux_override = src.aux_override.clone();
+                            nodes[*to as usize] = Some(NodeState { tx, base, added_vkeys: BTreeSet::new(), added_boots: BTreeSet::new(), aux_override })
+                        }
                         (Err(e), _) if !relayed => out.violate("C04.reload", "own_serialization_rejected", format!("step {}: node {} cannot load what node {} serialized: {}", step, to, from, e)),
                         _ => {}
                     }
@@ -677,7 +685,40 @@ fn execute(c: &Case) -> Outcome {
             SOp::SetPartAgain { node, part } => {
                 if let Some(ns) = nodes[*node as usize].as_mut() {
                     out.count("c04.raw_parts_set_again", 1);
-                    let r = match part % 3 {
+                    let r = match part % 5 {
+                        3 => match ns.tx.raw_auxiliary_data() {
+                            Some(a) => {
+                                let mut rr = Rng::new(mix(c.hash_seed, step as u64));
+                                let alt = match cbor::parse(&a) {
+                                    Ok(n) => {
+                                        let mut fe = Foreign::new(&mut rr, 200, 400, 0, 300);
+                                        let mut o = vec![];
+                                        fe.emit(&n, &mut o);
+                                        o
+                                    }
+                                    Err(_) => a.clone(),
+                                };
+                                match ns.tx.set_auxiliary_data(&alt) {
+                                    Ok(()) => {
+                                        out.count("c04.auxiliary_data_replaced_by_other_encoding", (alt != a) as u64);
+                                        ns.aux_override = Some(alt);
+                                        Ok(())
+                                    }
+                                    // the decoder may refuse an encoding; then nothing changes
+                                    Err(_) => Ok(()),
+                                }
+                            }
+                            None => Ok(()),
+                        },
+                        4 => {
+                            let whole = ns.tx.to_bytes();
+                            if ns.tx.set_body(&whole).is_ok() {
+                                Err("a whole transaction was accepted as a body".to_string())
+                            } else {
+                                out.count("fault.F4_refused_set_body", 1);
+                                Ok(())
+                            }
+                        }
                         0 => {
                             let ws = ns.tx.raw_witness_set();
                             ns.tx.set_witness_set(&ws).map_err(|e| format!("{:?}", e))
@@ -692,7 +733,7 @@ fn execute(c: &Case) -> Outcome {
                         },
                     };
                     if let Err(e) = r {
-                        out.violate("C04.reload", "own_part_rejected", format!("step {}: node {} cannot set the part {} it holds again: {}", step, node, part % 3, e));
+                        out.violate("C04.reload", "own_part_rejected", format!("step {}: node {} cannot set the part {} it holds again: {}", step, node, part % 5, e));
                     }
                 }
             }
